@@ -146,7 +146,17 @@ class HistoryRunner:
                 if self.out.diverged:
                     break
         except Violation as v:
-            self.out.violation = {"property": v.prop, "clause": v.clause, "detail": v.detail, "sig": v.sig,
+            prop, clause = v.prop, v.clause
+            own = getattr(self, "own_prop", None)
+            claims = set(getattr(self, "claims", ())) & set(self.pending_changes)
+            if own and prop != own and prop in ("C01", "C02", "C05") and claims:
+                # the first command after a change of the kind this property is about went wrong (stale content,
+                # wrong status, wrong set of scripts): that is this property's violation, whatever generic clause
+                # noticed it first
+                clause = "%s/%s-after-%s" % (prop, clause, "+".join(sorted(claims)))
+                prop = own
+                v.sig = dict(v.sig, via=v.prop)
+            self.out.violation = {"property": prop, "clause": clause, "detail": v.detail, "sig": v.sig,
                                   "step": self.step}
         finally:
             self.close()
